@@ -155,6 +155,8 @@ def run_one(prop, kind, nm, fn, owner, cfg, contracts):
     keybase = f"{prop}/{kind}.{nm}/{_cfgstr(cfg)}"
     fnname = f"{owner.__name__}.{nm}" + ("" if owner.__name__ == kind or kind == "GenericOp" else f"[{kind}]")
     t0 = time.time()
+    from vcgen.core import known_related
+    alg.ESCALATE[0] = not known_related(keybase)
     results = {}
 
     def thunk():
